@@ -54,6 +54,16 @@ def tie_world(rng):
         if rng.random() < 0.4:
             for prof in rng.sample(W.PROFILES, rng.randrange(2, 5)):
                 world["hits"][gene].setdefault(prof, rng.choice([20, 30]))
+    # two genes on one stretch, one on each strand (equal start and length: the record's order does not separate them),
+    # carrying different profiles
+    plain = [name for name, gene in world["genes"].items() if len(gene["loc"]["parts"]) == 1]
+    if plain and rng.random() < 0.5:
+        base = rng.choice(sorted(plain))
+        twin = base + "t"
+        spot = dict(world["genes"][base]["loc"])
+        world["genes"][twin] = {"loc": {"parts": [list(p) for p in spot["parts"]], "strand": -spot["strand"]}}
+        world["hits"][twin] = {prof: rng.choice([20, 30]) for prof in rng.sample(W.PROFILES, rng.randrange(1, 4))}
+        world["hits"].setdefault(base, {rng.choice(W.PROFILES): 30})
     # a gene whose identifier holds a run of characters that are not allowed in names (they become underscores,
     # one for each): its hits are filed under the name it has after that
     if world["genes"] and rng.random() < 0.3:
